@@ -219,6 +219,37 @@ def run(ctx):
             if sha(p) != before:
                 viol("%s|read-modifies" % ext, "%s on a '%s' file changed its bytes" % (name, ext), dict(ext=ext, reader=name))
                 before = sha(p)
+    # ---- md.open with a path-like (the documented argument type) obeys force_overwrite for every format; a refused open writes nothing,
+    # not even to the standard output
+    import contextlib, io, pathlib, gc
+    tq = md.load(top)
+    for ext_ in ("xtc", "trr", "dcd", "h5", "nc", "pdb", "xyz", "gro", "mdcrd", "lammpstrj"):
+        pq = pathlib.Path(ctx.scratch) / ("PathLike." + ext_)
+        pq.write_bytes(b"precious " * 30)
+        before = pq.read_bytes()
+        ctx.case(None, ("path-like", ext_)); ctx.count("md.open with a pathlib.Path")
+        buf = io.StringIO()
+        raised = False
+        with contextlib.redirect_stdout(buf):
+            try:
+                fq = md.open(pq, "w", force_overwrite=False)
+                fq.close()
+            except OSError:
+                raised = True
+            except Exception as e:  # noqa: BLE001
+                viol("path-like|raises|" + ext_, "md.open(pathlib.Path('x.%s'), 'w', force_overwrite=False) raised %s: %s" % (ext_, type(e).__name__, str(e)[:80]), dict(ext=ext_))
+                continue
+            gc.collect()
+        if not raised or pq.read_bytes() != before:
+            viol("path-like|overwritten|" + ext_, "md.open(pathlib.Path('x.%s'), 'w', force_overwrite=False) on an existing file %s and the file is %s" % (
+                ext_, "raised" if raised else "did not raise", "unchanged" if pq.read_bytes() == before else "modified"), dict(ext=ext_))
+        if buf.getvalue():
+            viol("refused-open|prints|" + ext_, "a refused md.open('.%s', 'w', force_overwrite=False) printed %r to the standard output" % (ext_, buf.getvalue()[:40]), dict(ext=ext_))
+        try:
+            fq = md.open(pq, "w", force_overwrite=True)
+            fq.close()
+        except Exception as e:  # noqa: BLE001
+            viol("path-like|raises|" + ext_, "md.open(pathlib.Path('x.%s'), 'w', force_overwrite=True) raised %s: %s" % (ext_, type(e).__name__, str(e)[:80]), dict(ext=ext_))
     for key, (what, rp) in seen.items():
         ctx.violation(key, what, rp)
 
